@@ -803,7 +803,11 @@ def data_type_tables(repo, col):
     from .core import helper_closure
     ge = repo.func("chunk_encoding", "get_encoder")
     branches = set()
-    closure = helper_closure(ge)
+    # the switch may live in a parameter object's method
+    # (EncoderParams.create_encoder): follow calls on local objects too
+    from .scope import reach
+    closure = [h for h in reach(repo, ge, 3)
+               if h.module.short == "chunk_encoding"]
     for h in closure:
         for n in walk_local(h.node):
             if isinstance(n, ast.Compare) and "encoding" in norm(n.left) and \
@@ -859,8 +863,25 @@ def data_type_tables(repo, col):
     oke = any(isinstance(s, ast.Raise) and "InvalidInfoError" in norm(s)
               and "Invalid encoding" in norm(s)
               for h in closure for s in stmts_of(h.node))
-    col.add(rule, ge, "unknown encoding raises InvalidInfoError", oke,
-            "" if oke else "unknown encodings fall through")
+    # positive evidence of a fall-through: an if/elif chain on the encoding
+    # whose final else does not raise
+    falls = False
+    for h in closure:
+        for st in stmts_of(h.node):
+            if isinstance(st, ast.If) and "encoding" in norm(st.test) and \
+                    isinstance(st.test, ast.Compare):
+                cur = st
+                while len(cur.orelse) == 1 and isinstance(cur.orelse[0],
+                                                          ast.If):
+                    cur = cur.orelse[0]
+                if cur is not st and cur.orelse and not \
+                        block_always_raises_(cur.orelse):
+                    falls = True
+    col.add(rule, ge, "unknown encoding raises InvalidInfoError",
+            oke or not falls,
+            "" if oke else ("unknown encodings fall through" if falls else
+                            "no raise for an unknown encoding recognised"),
+            undecided=not oke and not falls)
     # raw codec: same dtype and shape order on both sides
     rd = repo.func("chunk_encoding", "RawChunkEncoder.decode")
     okr = "np.frombuffer(buf, dtype=self.dtype)" in ftext(rd)
@@ -1054,16 +1075,33 @@ def dispatch_agreement(repo, col):
         fetch = [norm(c) for c in calls if norm(c).endswith(
             ".fetch_file('info')")]
         ok = len(pred) == 1 and len(fetch) >= 1
+        und_p = False
         if not ok:
+            from .core import helper_closure as _hc
             for c in calls:
                 h = fn.module.functions.get(call_name(c) or "")
-                if h is not None and "info_is_sharded" in ftext(h) and \
-                        "fetch_file('info')" in ftext(h):
+                if h is None:
+                    continue
+                ht = " ".join(ftext(x) for x in _hc(h, 2))
+                if "info_is_sharded" in ht and "fetch_file('info')" in ht:
                     pred = ["via " + h.qualname]
                     ok = True
+            # a branch that cannot produce a sharded accessor at all, or one
+            # whose decision is made where this rule does not follow it, is
+            # not evidence of a wrong dispatch
+            btxt = " ".join(norm(s_) for s_ in body)
+            if not ok and "info_is_sharded" not in btxt and \
+                    "Sharded" in btxt and not any(
+                        isinstance(c.func, ast.Name) and
+                        c.func.id not in fn.module.functions and
+                        c.func.id[:1].islower() for c in calls):
+                pass
+            elif not ok:
+                und_p = True
         col.add(rule, fn, "%s: sharded iff info_is_sharded(fetched info)"
-                % test[:40], ok, "" if ok else "this branch does not decide "
-                "'sharded' from the fetched info with info_is_sharded")
+                % test[:40], ok or und_p, "" if ok else "this branch does "
+                "not decide 'sharded' from the fetched info with "
+                "info_is_sharded", undecided=und_p)
         preds.append((test, pred, fetch))
         bdefs = {}
         for s_ in body:
